@@ -82,6 +82,24 @@ func checkPoly(p *packer, a *[256]int32) (string, string) {
 		i := firstDiff(out[:p.bytes], want)
 		return p.name + "/pack", fmt.Sprintf("%s pack differs from the generic LSB-first bit writer at byte %d (coefficients around index %d: %v)", p.name, i, i*8/p.bits, a[maxi(0, i*8/p.bits-1):mini(256, i*8/p.bits+2)])
 	}
+	if p.name == "z" {
+		// the signing loop unpacks every new mask into the vector that still holds the previous attempt's mask: the
+		// destination's old contents (here the complement pattern and the opposite extreme) must not survive
+		for _, fill := range []int32{-1, int32(p.hi), int32(p.lo), 0x55555} {
+			var dst [256]int32
+			for i := range dst {
+				dst[i] = fill ^ int32(i&1)
+			}
+			dilithium.VerifPolyZUnpackInto(&dst, out[:p.bytes])
+			if dst != *a {
+				for i := range dst {
+					if dst[i] != a[i] {
+						return "z/roundtrip-dirty-destination", fmt.Sprintf("z unpack into a polynomial that held %d before: position %d becomes %d instead of %d", fill^int32(i&1), i, dst[i], a[i])
+					}
+				}
+			}
+		}
+	}
 	if p.unpack != nil {
 		back := p.unpack(out[:p.bytes])
 		if back != *a {
@@ -118,7 +136,7 @@ func firstDiff(a, b []byte) int {
 
 func TestValuePositionSweep(t *testing.T) {
 	r := ev.New(t, prop, "TestValuePositionSweep")
-	r.Rule("for each packer (eta 5 values, t1 1024, t0 8192, z 2^20, w1 16) the family p_k[pos] = lo + ((k + pos*stride) mod range), k over the whole range, so that EVERY (value, position) pair occurs; plus both extremes at every position surrounded by the opposite extreme (lane bleed); oracles unpack(pack(v)) == v, pack == generic LSB-first bit writer, no write past the output; non-trivial = polynomials holding an extreme value in a lane that crosses a byte boundary, counted exactly")
+	r.Rule("for each packer (eta 5 values, t1 1024, t0 8192, z 2^20, w1 16) the family p_k[pos] = lo + ((k + pos*stride) mod range), k over the whole range, so that EVERY (value, position) pair occurs; plus both extremes at every position surrounded by the opposite extreme (lane bleed); oracles unpack(pack(v)) == v (for z also into a destination that still holds other values, as in the signing loop), pack == generic LSB-first bit writer, no write past the output; non-trivial = polynomials holding an extreme value in a lane that crosses a byte boundary, counted exactly")
 	nt, n := 0, 0
 	for _, p := range packers {
 		p := p
